@@ -12,6 +12,7 @@ TECHNIQUE = {
  "C03": "value-flow to the bounding writer and bounded-use classification of its methods, path-sensitive nil-return exploration of writeBodyFixedSize, control-dependence of body emission on the no-body predicate, must-pass rules in SetContentLength, serve-loop HEAD exploration",
  "C02": "path-sensitive exploration of the serve loop's SSA CFG over a finite abstraction (event bits + boolean/nil facts): must-close / must-check obligations per iteration",
  "C04": "connection typestate in RoundTrip by path-sensitive exploration (dispose-exactly-once counter, pooled-only-after-clean-read), control-dependence of pooling in the stream-close closure, select-case typestate of pooled pipeline work items, per-item typestate of the pipeline writer",
+ "C39": "typestate of spawned children by path-sensitive exploration of the supervision function (recorded + waited before any return, hook or next spawn), dominance of the deferred teardown, ordering rules (reach-avoiding searches) inside the teardown",
  "C40": "loop-carried tuple coupling by alias-tracking exploration of the selection loop, penalty pairing (counters in the abstract state), nil-result handling and panic reachability over the static call graph",
  "C41": "semaphore pairing and select-case typestate by path-sensitive exploration of tryDial, provenance of the connect context's bound, wrap-on-return rule, must-pass rules in the rotation loop",
  "C05": "backward cleanliness (taint) analysis with sanitiser classes over SSA: reaching definitions of scratch fields, in-place and returning neutraliser summaries, call-site resolution of helper parameters, induction over checked storage fields; neutraliser shape precondition",
